@@ -517,14 +517,20 @@ func childMain(cfgJSON string) {
 	port := srv.NetListener().Addr().String()
 	say(fmt.Sprintf("READY %s %d", port[strings.LastIndex(port, ":")+1:], udpPort))
 
-	// burst: count RTP packets with size-byte payloads to every media of the stream, as fast as possible
-	// (slow-reader stage: fills the socket buffers of a peer that has stopped reading). The answer lists
-	// the OnStreamWriteError calls so far, per session.
+	// command "B <count> <size>": a burst of count RTP packets with size-byte payloads to every media of
+	// the stream, as fast as possible (slow-reader stage: fills the socket buffers of a peer that has
+	// stopped reading). The answer "OK e1 e2 ..." lists the OnStreamWriteError calls so far, per session.
 	burstSeq := uint16(0)
-	burst := func(count, size int) string {
-		if count < 0 || count > 100000 || size < 1 || size > 1400 {
-			return "BAD"
+	writeErrCounts := func() []int {
+		c.mu.Lock()
+		defer c.mu.Unlock()
+		out := make([]int, len(c.writeErrOrder))
+		for i, ss := range c.writeErrOrder {
+			out[i] = c.writeErrs[ss]
 		}
+		return out
+	}
+	burst := func(count, size int) []int {
 		video := make([]byte, size)
 		video[0] = 5
 		audio := make([]byte, size)
@@ -541,14 +547,49 @@ func childMain(cfgJSON string) {
 			})
 		}
 		feedMu.Unlock()
-		var sb strings.Builder
-		sb.WriteString("OK")
-		c.mu.Lock()
-		for _, ss := range c.writeErrOrder {
-			fmt.Fprintf(&sb, " %d", c.writeErrs[ss])
+		return writeErrCounts()
+	}
+	burstArgsOK := func(count, size int) bool {
+		return count >= 1 && count <= 100000 && size >= 1 && size <= 1400
+	}
+	// fill: bursts of count packets until the write queue of some session STAYS full (at least 3/4 of a
+	// burst's packets of one media refused in three consecutive bursts and again after a pause of
+	// 10 ms), i.e. until that session's writer is blocked in a socket write; at most max bursts.
+	// Answer: "OK <blocked 0|1> <bursts written>".
+	fill := func(count, size, max int) string {
+		prev := writeErrCounts()
+		maxDelta := func(cur []int) int {
+			m := 0
+			for i, x := range cur {
+				p := 0
+				if i < len(prev) {
+					p = prev[i]
+				}
+				if x-p > m {
+					m = x - p
+				}
+			}
+			prev = cur
+			return m
 		}
-		c.mu.Unlock()
-		return sb.String()
+		runs := 0
+		for i := 1; i <= max; i++ {
+			if maxDelta(burst(count, size)) >= count*3/4 {
+				runs++
+			} else {
+				runs = 0
+			}
+			if runs >= 3 {
+				time.Sleep(10 * time.Millisecond)
+				i++
+				if maxDelta(burst(count, size)) >= count*3/4 {
+					return fmt.Sprintf("OK 1 %d", i)
+				}
+				runs = 0
+			}
+			time.Sleep(500 * time.Microsecond)
+		}
+		return fmt.Sprintf("OK 0 %d", max)
 	}
 
 	in := bufio.NewScanner(os.Stdin)
@@ -560,7 +601,25 @@ func childMain(cfgJSON string) {
 				say("BAD")
 				continue
 			}
-			say(burst(count, size))
+			if !burstArgsOK(count, size) {
+				say("BAD")
+				continue
+			}
+			var sb strings.Builder
+			sb.WriteString("OK")
+			for _, x := range burst(count, size) {
+				fmt.Fprintf(&sb, " %d", x)
+			}
+			say(sb.String())
+			continue
+		}
+		if strings.HasPrefix(line, "F ") {
+			var count, size, max int
+			if n, _ := fmt.Sscanf(line, "F %d %d %d", &count, &size, &max); n != 3 || !burstArgsOK(count, size) || max < 1 {
+				say("BAD")
+				continue
+			}
+			say(fill(count, size, max))
 			continue
 		}
 		switch line {
